@@ -61,7 +61,7 @@ class Job:
         self.checks = kv.get("checks", "")
         self.layer = kv.get("layer", "")              # free text shown in evidence (e.g. proved-relative-to-UFMUL)
         self.expect = kv.get("expect", "")            # obligation classes that must be present
-        self.harness = "h_" + self.name
+        self.harness = kv.get("harness", "h_" + self.name)
         self.native = kv.get("native", "1") == "1"    # native replay possible
         self.partial = kv.get("partial", "0") == "1"  # unwinding ASSUMPTIONS instead of assertions: a bounded stand-in (bounded= must say so)
 
